@@ -94,6 +94,22 @@ def check_function(rep, ex: Explorer, qual: str, role: str):
             if ev.kind in ("loop.unbalanced", "solver.pop-below"):
                 rep.violation("PART.balance", f"{site}:{getattr(ev.node, 'lineno', '?')}", "scope balance",
                               "solver scope not restored per element / popped below entry", extracted=ev.kind, required="balanced push/pop", function=site)
+    # every placement of an element (tolerated / remaining) follows from its own tolerance test
+    seen_bad = set()
+    for p in paths:
+        for ev, Q in iter_events(p.events):
+            if ev.kind == "loop" and ev.fam == HF:
+                for case in ev.cases:
+                    tested = any(k[0] == "sat" for k, v in case.guard)
+                    if tested:
+                        continue
+                    for e2, Q2 in iter_events(case.events):
+                        if e2.kind == "list.append" and isinstance(e2.value, ElemV) and e2.value.var == ev.evar and e2.node.lineno not in seen_bad:
+                            seen_bad.add(e2.node.lineno)
+                            rep.violation("PART.split", f"{site}:{e2.node.lineno}", "placement without test", "an element joins the tolerated (or the remaining) conditionals only by the outcome of its own tolerance test",
+                                          extracted="placed under " + (" ∧ ".join(show_pred(k if v else ("not", k))[:80] for k, v in case.guard) or "no condition"), required="SAT / UNSAT of the tolerance test", function=site)
+    if seen_bad:
+        return {"queries": n_queries, "rows": 0, "paths": len(paths)}
     if tolq is None:
         raise AnalysisError(f"{site}: no tolerance query found inside the element loop")
     rep.ok("PART.balance", site, "scope balance", "no unbalanced push/pop inside the element loop")
@@ -188,7 +204,6 @@ def check_function(rep, ex: Explorer, qual: str, role: str):
             if env["W"] is True and env["T"] is True and all(satbased(k) for k, v in unknown):
                 # positive evidence: with nothing tolerated in extended mode the verdict hangs on satisfiability tests other
                 # than the one joint test of the remaining material counterparts
-                from ..absvals import show_pred
                 rep.violation("PART.terminal", site, "extended terminal verdict", "with no tolerated conditional left the extended verdict is the joint satisfiability of the remaining material counterparts",
                               extracted="decided by " + "; ".join(show_pred(k)[:120] for k, v in unknown), required="SAT(⋀ material(c) for the remaining c)", function=site)
                 continue
